@@ -164,5 +164,5 @@ Words(t, v, at) ==
     [] Kind(t) = "union"  -> << <<at, "id">> >> \o Words(UnionItemType(t, v[1]), v[2], at + 4)
 
 \* b with the word at 0-based position p replaced by the 4 bytes w
-SetWord(b, p, w) == Tup([i \in 1..Len(b) |-> IF i > p /\ i <= p + 4 THEN w[i - p] ELSE b[i]])
+SetWord(b, p, w) == SubSeq(b, 1, p) \o w \o SubSeq(b, p + 5, Len(b))
 =============================================================================
